@@ -282,7 +282,7 @@ fn frontmatter(rng: &mut Rng, odd_keys: bool) -> String {
         let k = *rng.pick(YAML_KEYS);
         if used.contains(&k) { continue; }
         used.push(k);
-        let v = match k { "servings" => rng.pick(&["2", "4", "2|4", "[2, 4]", "many"]).to_string(), "time" => rng.pick(&["10 min", "1h", "90", "{prep: 10 min, cook: 1 h}"]).to_string(), _ => yaml_value(rng, 2, 2) };
+        let v = match k { "servings" => rng.pick(&["2", "4", "2|4", "[2, 4]", "many", "4|2|8", "[6, 3]", "12|6", "8|4|2|1"]).to_string(), "time" => rng.pick(&["10 min", "1h", "90", "{prep: 10 min, cook: 1 h}"]).to_string(), _ => yaml_value(rng, 2, 2) };
         s.push_str(&format!("{k}:{}{v}\n", if v.starts_with('\n') { "" } else { " " }));
     }
     if odd_keys { s.push_str(rng.pick_str(&["1: x\n", "true: y\n", "1.5: z\n", "~: n\n", "? [a, b]\n: c\n", "t: !tag v\n", "n: {1: 2}\n", "s: [{2: 3}]\n", "1: a\n\"1\": b\n", "i: .inf\n", "n: .nan\n"])); }
